@@ -62,13 +62,17 @@ ghost enum Ev {
     Call { at: int, end: int, function: u8, piped: Option<u8>, want: ResultRegister },
     // a chain expression (compile_chain) with a piped argument, result request `want`
     Chain { at: int, end: int, chain: (ChainNode, Option<AstIndex>), piped: Option<u8>, want: ResultRegister },
+    // a chain expression that is assigned to: `chain OP= rhs`
+    ChainAssign { at: int, end: int, chain: (ChainNode, Option<AstIndex>), rhs: Option<u8>, rhs_op: Option<Op>, want: ResultRegister },
+    // the value in `register` exported under the name `id` (compile_value_export)
+    Export { at: int, id: ConstantIndex, register: u8 },
 }
 impl Ev {
     spec fn is_op(self, op: Op, args: Seq<u8>) -> bool { self matches Ev::Op { op: o, args: a, .. } && o == op && a =~= args }
     spec fn is_spanned_op(self, op: Op, args: Seq<u8>, span: Option<AstNode>) -> bool { self matches Ev::Op { op: o, args: a, span: s, .. } && o == op && a =~= args && s == span }
     spec fn is_var(self, n: u32) -> bool { self matches Ev::VarU32 { n: m, .. } && m == n }
     spec fn is_node(self, node: AstIndex, want: ResultRegister) -> bool { self matches Ev::Node { node: n, want: w, .. } && n == node && w == want }
-    spec fn pos(self) -> int { match self { Ev::Op { at, .. } => at, Ev::VarU32 { at, .. } => at, Ev::Hole { at } => at, Ev::Back { at, .. } => at, Ev::Node { at, .. } => at, Ev::Call { at, .. } => at, Ev::Chain { at, .. } => at } }
+    spec fn pos(self) -> int { match self { Ev::Op { at, .. } => at, Ev::VarU32 { at, .. } => at, Ev::Hole { at } => at, Ev::Back { at, .. } => at, Ev::Node { at, .. } => at, Ev::Call { at, .. } => at, Ev::Chain { at, .. } => at, Ev::ChainAssign { at, .. } => at, Ev::Export { at, .. } => at } }
     // the register that holds a sub-expression's value
     spec fn reg(self) -> u8 { match self { Ev::Node { out, .. } => match out.register { Some(r) => r, None => 0 }, _ => 0 } }
     spec fn temporary(self) -> bool { self matches Ev::Node { out, .. } && out.is_temporary }
@@ -86,6 +90,8 @@ ghost struct G {
     // the current compile frame's declared output type (`-> T`) and whether it is a generator's frame
     output_type: Option<AstIndex>,
     is_generator: bool,
+    // whether the code being compiled is at the top level of the script (`frame_stack.len() == 1`)
+    top_level: bool,
 }
 
 struct Compiler { bytes: Vec<u8>, settings: CompilerSettings, g: Ghost<G> }
@@ -136,6 +142,14 @@ spec fn arith_op_spec(op: AstBinaryOp) -> Option<Op> {
     match op {
         AstBinaryOp::Add => Some(Op::Add), AstBinaryOp::Subtract => Some(Op::Subtract), AstBinaryOp::Multiply => Some(Op::Multiply),
         AstBinaryOp::Divide => Some(Op::Divide), AstBinaryOp::Remainder => Some(Op::Remainder), AstBinaryOp::Power => Some(Op::Power),
+        _ => None,
+    }
+}
+// the instruction for a compound assignment operator
+spec fn compound_op_spec(op: AstBinaryOp) -> Option<Op> {
+    match op {
+        AstBinaryOp::AddAssign => Some(Op::AddAssign), AstBinaryOp::SubtractAssign => Some(Op::SubtractAssign), AstBinaryOp::MultiplyAssign => Some(Op::MultiplyAssign),
+        AstBinaryOp::DivideAssign => Some(Op::DivideAssign), AstBinaryOp::RemainderAssign => Some(Op::RemainderAssign), AstBinaryOp::PowerAssign => Some(Op::PowerAssign),
         _ => None,
     }
 }
@@ -196,6 +210,9 @@ impl CompileNodeOutput {
     fn unwrap(&self, compiler: &Compiler) -> (r: Result<u8>) ensures (r is Ok) == (self.register is Some), r matches Ok(v) ==> Some(v) == self.register { unimplemented!() }
 }
 spec fn fixed_or_none_spec(register: Option<u8>) -> ResultRegister { match register { Some(x) => ResultRegister::Fixed(x), None => ResultRegister::None } }
+// `n.unsigned_abs()` on an i16 (rule R5)
+#[verifier::external_body]
+fn i16_unsigned_abs(n: i16) -> (r: u16) ensures r == (if n < 0 { -(n as int) } else { n as int }) { unimplemented!() }
 // `x.map_or(ResultRegister::None, ResultRegister::Fixed)` written out (Verus has no constructors as function values), rule R5
 fn fixed_or_none(register: Option<u8>) -> (r: ResultRegister) ensures r == (match register { Some(x) => ResultRegister::Fixed(x), None => ResultRegister::None }) {
     match register { Some(x) => ResultRegister::Fixed(x), None => ResultRegister::None }
@@ -205,7 +222,7 @@ fn fixed_or_none(register: Option<u8>) -> (r: ResultRegister) ensures r == (matc
 HELPERS = r"""
     spec fn len(&self) -> int { self.bytes@.len() as int }
     // what no emission changes: the settings and the current compile frame's declared output type / generator flag
-    spec fn fixed(&self) -> (CompilerSettings, Option<AstIndex>, bool) { (self.settings, self.g@.output_type, self.g@.is_generator) }
+    spec fn fixed(&self) -> (CompilerSettings, Option<AstIndex>, bool, bool) { (self.settings, self.g@.output_type, self.g@.is_generator, self.g@.top_level) }
     // everything but the code, the trace and the patches
     spec fn same_frame_state(&self, o: &Compiler) -> bool { self.g@.regs == o.g@.regs && self.g@.spans =~= o.g@.spans && self.g@.loops =~= o.g@.loops && self.fixed() == o.fixed() }
 
@@ -381,9 +398,6 @@ HELPERS = r"""
             })
     }
 
-    // not under contract here (compile_chain, 375 lines, is behind both)
-    #[verifier::external_body]
-    fn compile_compound_assignment_op(&mut self, ast_op: AstBinaryOp, lhs: AstIndex, rhs: AstIndex, ctx: CompileNodeContext) -> (r: Result<CompileNodeOutput>) { unimplemented!() }
     // ASSUMED contracts of compile_call (94 lines) and compile_chain (375 lines), as for compile_node: the code is
     // appended, the result request is honoured, nothing but the reported temporary stays on the register stack
     spec fn sub_post(pre: &Compiler, post: &Compiler, want: ResultRegister, out: CompileNodeOutput) -> bool {
@@ -403,7 +417,19 @@ HELPERS = r"""
     fn compile_chain(&mut self, chain: &(ChainNode, Option<AstIndex>), piped_arg_register: Option<u8>, rhs: Option<u8>, rhs_op: Option<Op>, ctx: CompileNodeContext) -> (r: Result<CompileNodeOutput>)
         requires old(self).g@.spans.len() > 0,
         ensures r matches Ok(out) ==> Self::sub_post(old(self), final(self), ctx.result_register, out)
-            && final(self).g@.trace.last() == (Ev::Chain { at: old(self).len(), end: final(self).len(), chain: *chain, piped: piped_arg_register, want: ctx.result_register }),
+            && final(self).g@.trace.last() == (if rhs is None && rhs_op is None { Ev::Chain { at: old(self).len(), end: final(self).len(), chain: *chain, piped: piped_arg_register, want: ctx.result_register } }
+                    else { Ev::ChainAssign { at: old(self).len(), end: final(self).len(), chain: *chain, rhs, rhs_op, want: ctx.result_register } }),
+    { unimplemented!() }
+    // `self.frame_stack.len() == 1` (rule R5): the code being compiled is at the top level of the script
+    #[verifier::external_body]
+    fn at_top_level(&self) -> (r: bool) ensures r == self.top_level() { unimplemented!() }
+    spec fn top_level(&self) -> bool { self.g@.top_level }
+    // ASSUMED contract of compile_value_export (the REPL's `export_top_level_ids` mode): one Export event, nothing else changes
+    #[verifier::external_body]
+    fn compile_value_export(&mut self, id: ConstantIndex, value_register: u8) -> (r: Result<()>)
+        requires old(self).g@.spans.len() > 0,
+        ensures r is Ok ==> final(self).len() >= old(self).len() && final(self).g@.trace == old(self).g@.trace.push(Ev::Export { at: old(self).len(), id, register: value_register })
+            && final(self).same_frame_state(old(self)) && final(self).g@.patched == old(self).g@.patched,
     { unimplemented!() }
     // `self.frame().output_type` / `self.frame().is_generator` (rule R5): fields of the current compile frame
     spec fn output_type(&self) -> Option<AstIndex> { self.g@.output_type }
@@ -995,6 +1021,44 @@ let ghost mut rs: Seq<AstIndex> = seq![rhs0]; let ghost mut operands: Seq<AstInd
         r matches Ok(out) ==> (ctx.result_register is Any ==> out.register is Some && out.is_temporary),
         r matches Ok(out) ==> (ctx.result_register is None ==> out.register is None),                                                     // @result_request_is_honoured
 """),
+        # ---- C01: compound assignment `a OP= b`
+        Fn(F, "impl<'a> CompileNodeContext<'a> :: fn with_fixed_register_or_none", props=P01,
+           subst=[("register.map_or(ResultRegister::None, ResultRegister::Fixed)", "fixed_or_none(register)", 1)],
+           spec="    ensures r.ast == self.ast && r.result_register == fixed_or_none_spec(register),\n"),
+        Fn(F, "impl Compiler :: fn compile_compound_assignment_op", props=P01, let_chains=True,
+           subst=[ERR, ('"compound assignment".into()', 'err_str("compound assignment")', 1),
+                  ("self.frame_stack.len() == 1", "self.at_top_level()", 1)],
+           before=[TAIL],
+           spec=r"""
+    requires old(self).g@.spans.len() > 0,
+    ensures
+        compound_op_spec(ast_op) is None ==> r is Err,                                                                                    // @not_a_compound_assignment_operator_is_an_error
+        r is Ok ==> prefix(old(self).g@.trace, final(self).g@.trace) && final(self).g@.trace.len() >= old(self).g@.trace.len() + 2,
+        // the value on the right is evaluated first (as for a plain assignment), into a register of its own
+        r matches Ok(out) ==> final(self).g@.trace[old(self).g@.trace.len() as int].is_node(rhs, ResultRegister::Any),                      // @value_first
+        // `x[i] OP= v`, `x.y OP= v`: the chain is compiled with the value and the operator, its new value goes where this
+        // expression's result goes
+        r matches Ok(out) ==> (ctx.ast.at(lhs).node matches Node::Chain(c) ==> ({
+            let t = final(self).g@.trace; let n = old(self).g@.trace.len() as int;
+            t.len() == n + 2 && (t[n + 1] matches Ev::ChainAssign { chain, rhs: rv, rhs_op, want, .. } && chain == c && rv == Some(t[n].reg())
+                && rhs_op == compound_op_spec(ast_op) && want == fixed_or_none_spec(out.register)) })),                                     // @chain_target_gets_value_and_operator
+        // `x OP= v`: the target is loaded, ONE instruction applies the operator to it in place, the new value is copied
+        // to where the result goes (and exported under its name in the REPL's export mode, at the top level)
+        r matches Ok(out) ==> (!(ctx.ast.at(lhs).node is Chain) ==> ({
+            let t = final(self).g@.trace; let n = old(self).g@.trace.len() as int;
+            let exported = ctx.ast.at(lhs).node is Id && old(self).settings.export_top_level_ids && old(self).top_level();
+            let e = if exported { 1int } else { 0 };
+            &&& t.len() == n + 3 + e + (if out.register is Some { 1int } else { 0 })
+            &&& t[n + 1].is_node(lhs, ResultRegister::Any)
+            &&& (compound_op_spec(ast_op) matches Some(o) && t[n + 2].is_op(o, seq![t[n + 1].reg(), t[n].reg()]))
+            &&& (exported ==> (t[n + 3] matches Ev::Export { id, register, .. } && register == t[n + 1].reg() && (ctx.ast.at(lhs).node matches Node::Id(i, _) && i == id)))
+            &&& (out.register matches Some(x) ==> t[n + 3 + e].is_op(Op::Copy, seq![x, t[n + 1].reg()])) })),                               // @target_updated_in_place_then_copied_to_the_result
+        r matches Ok(out) ==> final(self).g@.regs == old(self).g@.regs + (if out.is_temporary { 1int } else { 0 }),                       // @temporaries_released
+        r is Ok ==> Self::frame_post(old(self), final(self), old(self).len()),                                                           // @earlier_code_and_enclosing_loops_untouched
+        r matches Ok(out) ==> (ctx.result_register matches ResultRegister::Fixed(x) ==> out.register == Some(x) && !out.is_temporary),
+        r matches Ok(out) ==> (ctx.result_register is Any ==> out.register is Some && out.is_temporary),
+        r matches Ok(out) ==> (ctx.result_register is None ==> out.register is None),                                                     // @result_request_is_honoured
+"""),
         # ---- C01: piped calls `x -> f`
         Fn(F, "impl Compiler :: fn compile_load_non_local", props=P01,
            spec=r"""
@@ -1130,6 +1194,42 @@ let ghost mut rs: Seq<AstIndex> = seq![rhs0]; let ghost mut operands: Seq<AstInd
         r matches Ok(out) ==> (out.is_temporary ==> ctx.result_register is Any),
         r matches Ok(out) ==> (ctx.result_register is None ==> out.register is None),                                                     // @result_request_is_honoured
         r is Ok ==> Self::frame_post(old(self), final(self), old(self).len()),                                                           // @earlier_code_and_enclosing_loops_untouched
+"""),
+        # small integer literals
+        Fn(F, "impl Compiler :: fn compile_node", props=("C01", "C06"), rename="compile_node__small_int_arm",
+           fragment=dict(start="if let Some(result) = result.register {\n                    match *n {", to_block_end=True, prologue="use Op::*;",
+                         sig="fn compile_node(&mut self, n: &i16, result: CompileNodeOutput) -> CompileNodeOutput"),
+           subst=[("n.unsigned_abs() as u8", "i16_unsigned_abs(n) as u8", 1)],
+           spec=r"""
+    requires old(self).g@.spans.len() > 0,
+        // ASSUMED: the parser stores a literal as a SmallInt only when its magnitude fits a byte (parser.rs: `u8::try_from(n).is_ok()`)
+        -255 <= *n <= 255,
+    ensures
+        r == result, final(self).same_frame_state(old(self)), final(self).g@.patched == old(self).g@.patched,
+        // C01: the literal's value: 0 and 1 have instructions of their own, other magnitudes travel as one byte with the
+        // sign in the instruction
+        result.register matches Some(x) ==> final(self).g@.trace.len() == old(self).g@.trace.len() + 1 && prefix(old(self).g@.trace, final(self).g@.trace)
+            && final(self).g@.trace.last().is_op(if *n == 0 { Op::Set0 } else if *n == 1 { Op::Set1 } else if *n > 0 { Op::SetNumberU8 } else { Op::SetNumberNegU8 },
+                    if *n == 0 || *n == 1 { seq![x] } else if *n > 0 { seq![x, *n as u8] } else { seq![x, (-(*n as int)) as u8] }),          // @literal_value_in_one_instruction
+        result.register is None ==> final(self).g@.trace == old(self).g@.trace,                                                           // @nothing_without_a_result_register
+"""),
+        # throw
+        Fn(F, "impl Compiler :: fn compile_node", props=("C04", "C01", "C12", "C06"), rename="compile_node__throw_arm",
+           fragment=dict(start="// A throw will prevent the result from being used, but the caller should be", to_block_end=True, prologue="use Op::*;", wrap=("Ok({", "})"),
+                         sig="fn compile_node(&mut self, expression: &AstIndex, ctx: CompileNodeContext) -> Result<CompileNodeOutput>"),
+           spec=r"""
+    requires old(self).g@.spans.len() > 0,
+    ensures
+        // C04: the thrown value is evaluated into a register of its own, then thrown (under the throw expression's span)
+        r matches Ok(out) ==> ({
+            let t = final(self).g@.trace; let n = old(self).g@.trace.len() as int;
+            t.len() == n + 2 && prefix(old(self).g@.trace, t) && t[n].is_node(*expression, ResultRegister::Any)
+                && t[n + 1].is_spanned_op(Op::Throw, seq![t[n].reg()], Some(old(self).g@.spans.last())) }),                                // @value_then_throw
+        r matches Ok(out) ==> final(self).g@.regs == old(self).g@.regs + (if out.is_temporary { 1int } else { 0 }),                       // @temporaries_released
+        r is Ok ==> Self::frame_post(old(self), final(self), old(self).len()),
+        r matches Ok(out) ==> (ctx.result_register matches ResultRegister::Fixed(x) ==> out.register == Some(x) && !out.is_temporary),
+        r matches Ok(out) ==> (ctx.result_register is Any ==> out.register is Some && out.is_temporary),
+        r matches Ok(out) ==> (ctx.result_register is None ==> out.register is None),                                                     // @result_request_is_honoured
 """),
     ],
     epilogue=r"""
